@@ -12,8 +12,12 @@ Model of the catchpoint tracker's label production, AS CODED (ledger/catchpointt
                                      leaf, add the new one; Commit), CatchpointStateWritingFirstStageInfo, catchpoint lookback, unfinished
                                      catchpoint records — all or nothing)
       postCommit / postCommitUnlocked (`Ev.tick` executes ONE pending action: trie evict, finishFirstStage, finishCatchpoint r, prune)
-      crash / restart               (`Ev.crash`: volatile state lost — pending work, the uncommitted trie image, reenableCatchpointsRound —
-                                     then loadFromDisk/recoverFromCrash: finishFirstStageAfterCrash, finishCatchpointsAfterCrash, prune)
+      crash / restart               (`Ev.crash en`: volatile state lost — pending work, the uncommitted trie image, reenableCatchpointsRound —
+                                     the node comes up with catchpoint tracking ENABLED or DISABLED (`en`; CatchpointTracking / interval of
+                                     the new lifetime), initializeHashes: the balances trie is reset — and rebuilt from the rows when tracking
+                                     is enabled — iff the accounts hash round (`hashRound`, "hashbase") differs from the DB round; then
+                                     recoverFromCrash: finishFirstStageAfterCrash, finishCatchpointsAfterCrash, prune.  While tracking is
+                                     disabled commitRound leaves the trie alone and stamps hash round 0.)
       trie housekeeping             (`Ev.trie op`: Commit / Evict / reload of the trie object at any time: page and cache configurations
                                      only influence WHEN these happen)
     A flush schedule, the restart points and the trie configuration are exactly the event list.
@@ -183,6 +187,10 @@ structure Tr where
   unfinished : List (Nat × Bytes)
   /-- CatchpointStateLastCatchpoint -/
   lastLabel : String
+  /-- accountsHashRound ("hashbase"): the round the persisted trie was brought to; 0 after a commit without tracking -/
+  hashRound : Nat
+  /-- catchpoint tracking enabled in this lifetime (catchpointInterval ≠ 0) -/
+  enabled : Bool
   /-- reenableCatchpointsRound (memory only) -/
   reenable : Nat
   /-- remaining work of postCommit / postCommitUnlocked or of recoverFromCrash (memory only) -/
@@ -194,7 +202,7 @@ inductive Ev where
   | block
   | commit (target : Nat)
   | tick
-  | crash
+  | crash (enabled : Bool)
   | trie (op : TrieOp)
   deriving DecidableEq, Repr
 
@@ -234,7 +242,7 @@ def buildTrie (H : Bytes → Bytes) (rows : Rows) : Store :=
 def Tr.init (H : Bytes → Bytes) (h : Hist) : Tr :=
   { latest := 0, dbRound := 0, rows := h.genesis, aux := h.genesisAux, trie := buildTrie H h.genesis,
     writingFS := false, lookbackState := 0, firstStage := [], unfinished := [], lastLabel := "",
-    reenable := 0, pending := [], out := [] }
+    hashRound := 0, enabled := true, reenable := 0, pending := [], out := [] }
 
 def insertInfo (l : List (Nat × Info)) (a : Nat) (i : Info) : List (Nat × Info) :=
   (a, i) :: l.filter fun x => x.1 ≠ a
@@ -285,25 +293,39 @@ def step (H : Bytes → Bytes) (p : Params) (h : Hist) (σ : Tr) : Ev → Tr
     else σ
   | .commit t =>
     if σ.pending = [] ∧ σ.dbRound < t ∧ t ≤ σ.latest ∧ 0 < p.interval then
-      let fs := calcFirstStageRounds σ.dbRound (t - σ.dbRound) σ.reenable p.interval p.lookback
-      let rds := (h.rounds.drop σ.dbRound).take fs.newOffset
-      let newBase := σ.dbRound + fs.newOffset
-      let rows' := rds.foldl applyRound σ.rows
-      let cps := cpHashes h (catchpointRounds σ.dbRound fs.newOffset p.lookback p.interval)
-      { σ with
-        dbRound := newBase, rows := rows', aux := h.auxAt newBase,
-        trie := updateTrie H σ.rows rows' (changedKeys rds) σ.trie,
-        writingFS := σ.writingFS || fs.has, lookbackState := p.lookback,
-        unfinished := σ.unfinished ++ cps,
-        pending := [Act.evict] ++ (if fs.has then [Act.fs] else []) ++ cps.map (fun x => Act.cp x.1 x.2) ++ [Act.prune] }
+      if σ.enabled then
+        let fs := calcFirstStageRounds σ.dbRound (t - σ.dbRound) σ.reenable p.interval p.lookback
+        let rds := (h.rounds.drop σ.dbRound).take fs.newOffset
+        let newBase := σ.dbRound + fs.newOffset
+        let rows' := rds.foldl applyRound σ.rows
+        let cps := cpHashes h (catchpointRounds σ.dbRound fs.newOffset p.lookback p.interval)
+        { σ with
+          dbRound := newBase, rows := rows', aux := h.auxAt newBase,
+          trie := updateTrie H σ.rows rows' (changedKeys rds) σ.trie, hashRound := newBase,
+          writingFS := σ.writingFS || fs.has, lookbackState := p.lookback,
+          unfinished := σ.unfinished ++ cps,
+          pending := [Act.evict] ++ (if fs.has then [Act.fs] else []) ++ cps.map (fun x => Act.cp x.1 x.2) ++ [Act.prune] }
+      else
+        -- catchpointInterval = 0: produceCommittingTask leaves the range alone, accountsUpdateBalances returns at once,
+        -- UpdateAccountsHashRound(0); the lookback is still recorded and old first-stage records are still pruned
+        let n := t - σ.dbRound
+        let rds := (h.rounds.drop σ.dbRound).take n
+        { σ with
+          dbRound := σ.dbRound + n, rows := rds.foldl applyRound σ.rows, aux := h.auxAt (σ.dbRound + n),
+          hashRound := 0, lookbackState := p.lookback, pending := [Act.evict, Act.prune] }
     else σ
   | .tick =>
     match σ.pending with
     | [] => σ
     | a :: rest => runAct H p { σ with pending := rest } a
-  | .crash =>
-    let σ' := { σ with trie := σ.trie.reload, pending := [],
-                       reenable := if σ.dbRound < σ.latest then σ.dbRound + 1 + p.lookback else 0 }
+  | .crash en =>
+    let stale := σ.hashRound ≠ σ.dbRound
+    let σ' := { σ with
+      -- initializeHashes
+      trie := if stale then (if en then buildTrie H σ.rows else Store.empty) else σ.trie.reload,
+      hashRound := if stale ∧ en then σ.dbRound else σ.hashRound,
+      enabled := en, pending := [],
+      reenable := if σ.dbRound < σ.latest then σ.dbRound + 1 + p.lookback else 0 }
     { σ' with pending := recoveryActs σ' }
   | .trie op => { σ with trie := applyTrieOp σ.trie op }
 
